@@ -25,6 +25,7 @@ type Obligation struct {
 	AxiomKeys map[string][]string
 	Distinct  [][]string
 	Vacuity   bool // expected to be refuted (sat): guards against contradictory assumptions
+	Exact     bool // no loop / callee / heap abstraction on the path: a model is an execution of the function's own code
 	Inputs    []InputSym
 	// results
 	Status  string // discharged | refuted | unknown
@@ -132,6 +133,11 @@ func newVC(w *World, pkg *PkgInfo, fd *ast.FuncDecl, c *Contract) *VC {
 	if c != nil {
 		vc.wraps = c.Wraps
 		vc.noSafety = c.NoSafety
+		if c.Wraps["*"] {
+			// `wraps *`: every integer operation of the function has the machine's wrap-around semantics and
+			// raises no overflow obligation (for functions whose result is pinned by a functional postcondition)
+			vc.wrapMode = 1
+		}
 	}
 	vc.declare("Alloc0", "(Array Int Bool)")
 	vc.addAxiom("(not (select Alloc0 0))")
@@ -759,7 +765,7 @@ func (vc *VC) oblige(st *State, kind, label, text string, pos token.Pos, goal st
 		fam += "." + label
 	}
 	vc.oblCount[fam]++
-	o := &Obligation{ID: fmt.Sprintf("%s@%d", fam, vc.oblCount[fam]), Family: fam, Kind: kind, Func: vc.fname, Text: text, PC: vc.pcWithGuards(st), Goal: goal}
+	o := &Obligation{ID: fmt.Sprintf("%s@%d", fam, vc.oblCount[fam]), Family: fam, Kind: kind, Func: vc.fname, Text: text, PC: vc.pcWithGuards(st), Goal: goal, Exact: !st.approx}
 	if pos.IsValid() {
 		o.Pos = vc.w.pos(pos)
 	}
